@@ -13,7 +13,7 @@ extern "C" {
 
 enum { SIM_K_PLAIN = 0, SIM_K_VOLATILE = 1, SIM_K_ATOMIC = 2, SIM_K_NKIND = 3 };
 enum { SIM_STRAT_RW = 0, SIM_STRAT_PCT = 1, SIM_STRAT_RR = 2 };
-enum { SIM_END_OK = 0, SIM_END_DEADLOCK = 1, SIM_END_BUDGET = 2 };
+enum { SIM_END_OK = 0, SIM_END_DEADLOCK = 1, SIM_END_BUDGET = 2, SIM_END_NOPROGRESS = 3 };
 
 /* PRNG sub-streams */
 enum { SIM_RNG_SCHED = 0, SIM_RNG_NET = 1, SIM_RNG_DEV = 2, SIM_RNG_WORK = 3, SIM_RNG_KNOB = 4, SIM_RNG_N = 5 };
@@ -27,6 +27,7 @@ typedef struct sim_params {
     int      pct_depth;       /* PCT: number of priority change points; <0 drawn */
     uint64_t pct_len;         /* PCT: estimated run length in scheduling points */
     uint64_t max_steps;       /* step budget, 0 = default 400M */
+    uint64_t tail_after;      /* steps after which faults stop and scheduling is RR-fair (0: max_steps/2) */
     uint64_t quantum_ns;      /* simulated ns per scheduling point (default 20) */
     int      stalls;          /* number of random stall injections (RW only); <0 drawn */
     uint64_t stall_len;       /* estimated run length for stall placement */
